@@ -18,6 +18,7 @@ from ..impl import valjson as vj
 from ..translate import c04 as tr
 
 PROPERTY = "C04"
+CASE_TIMEOUT = 300  # s of wall clock per case in pool workers (runner watchdog): a case that spins forever is a verdict, not exit 2
 THEOREM_MODULE = "NemoVerif.Theorems.C04"
 RULE = ("pattern: random nested value (scalars, regex, comparison, list, set, dict; depth<=4 quick / 6 thorough); payload: "
         "40% instance of the pattern, 40% instance mutated by add/drop/reorder/alter at random positions, 20% independent; "
